@@ -59,6 +59,8 @@ def main():
     wt = "/tmp/seedwt/%s" % name
     out = "/tmp/seedout/%s" % name
     res = {"seed": name, "property": prop, "repo_head": None, "steps": {}}
+    prev_path = os.path.join(d, "confirm.json")
+    prev = json.load(open(prev_path)) if os.path.exists(prev_path) else {}
     os.makedirs("/tmp/seedwt", exist_ok=True)
     shutil.rmtree(out, ignore_errors=True)
     os.makedirs(out, exist_ok=True)
@@ -81,6 +83,8 @@ def main():
         res["steps"]["compile"] = {"rc": rc, "ok": rc == 0, "tail": o[-400:]}
         rc1, o1, t = sh([PY, "-B", demo], cwd=wt, env=env, timeout=900)
         res["steps"]["demo_mutated"] = {"rc": rc1, "ok": rc1 != 0, "s": round(t, 1), "tail": o1[-600:]}
+        if "--no-suite" in flags and "suite" in prev.get("steps", {}):
+            res["steps"]["suite"] = prev["steps"]["suite"]          # keep an earlier suite result
         if "--no-suite" not in flags:
             base = json.load(open("/root/.vp/BASELINE.json"))
             jx = os.path.join(out, "junit.xml")
@@ -95,6 +99,9 @@ def main():
                                      "tail": o[-300:]}
         props = [prop] + [p for p in meta.get("also_check", [])]
         res["checks"] = {}
+        if "--suite-only" in flags:
+            props = []
+            res["checks"] = prev.get("checks", {})
         for p in props:
             if not os.path.exists(os.path.join(VERIF, "harness", "checks", p.lower() + ".py")):
                 res["checks"][p] = {"rc": None, "note": "no check registered"}
@@ -104,7 +111,8 @@ def main():
             viol = [l for l in o.splitlines() if l.startswith("VIOLATION")]
             res["checks"][p] = {"rc": rc, "detected": rc == 1 and bool(viol), "violations": [v[:400] for v in viol[:6]],
                                 "n_violation_lines": len(viol), "s": round(t, 1), "tail": o[-500:], "tier": tier}
-        res["confirmed"] = all(s["ok"] for s in res["steps"].values())
+        res["confirmed"] = all(s["ok"] for s in res["steps"].values()) and "suite" in res["steps"]
+        res["confirmed_without_suite"] = all(s["ok"] for k, s in res["steps"].items() if k != "suite")
         res["detected"] = any(c.get("detected") for c in res["checks"].values())
     finally:
         if "--keep" not in flags:
